@@ -960,7 +960,7 @@ class Engine:
         sen = SpecEval(st, env_n, old, env, self)
         for cl in c.ensures:
             st.assume(sen.bool_of(cl.expr))
-        if c.returns is not None and c.returns.is_ref and not c.returns.nullable:
+        if c.returns is not None and c.returns.kind in ("obj", "list", "dict", "set") and not c.returns.nullable:
             st.assume(res.t > 0)
         if self.feasible(st):
             yield st, res
